@@ -9,6 +9,7 @@ EXPLANATION = 'Lean: TDV.MP.deterministic / delta_at_yield / snapshot_fields ove
 ASSUMPTIONS = ["worker processes are virtual processes under harness/vsched.py (real _worker_loop, deep-copied arguments, pickled queue payloads)"]
 
 PARTS = [_compose.ko_part("ko", sdl_ko.gen_c05, sdl_ko.check_c05, 80, 1500, known=None)]
+PARTS.append(_compose.ko_part("ko_timeout", sdl_ko.gen_timeout, sdl_ko.check_timeout, 40, 600, known=None))
 
 try:
     from . import mp_parts
